@@ -255,6 +255,12 @@ func runAA(k aaCase) (out aaOutcome) {
 		out.skipped = true
 		return
 	}
+	if k.AA.Type == "rsa" && k.AA.Bits > 2048 {
+		// a signature of more than 256 octets needs an extended-length response: the caller configures the read size for it
+		// (after DG15 was read: an unprotected READ BINARY with Le > 256 is case 2E, see known finding C17, and its
+		// fall-back would leave the session with a read size of 256)
+		s.Nfc.SetMaxLe(65536)
+	}
 	supplied := make([]byte, 8)
 	rnd.Read(supplied)
 	otherChallenge := make([]byte, 8)
